@@ -347,3 +347,57 @@ func ZZ_C05_issuance() {
 		zz.Assert(!want, "refresh token is issued when the rule allows it")
 	}
 }
+
+// ZZ_C05_session_types: "the new tokens carry the same subject" for every session type the library ships
+// (fosite.DefaultSession, openid.DefaultSession, oauth2.JWTSession with JWT access tokens): the refresh
+// grant works on a CLONE of the stored session, and each type clones itself.
+func ZZ_C05_session_types() {
+	kind := zz.Choice("session-type", 3)
+	wd := world.NewX(world.XOptions{JWTAccess: kind == 2})
+	subject := zz.StringEx("subject", 6, " ")
+	zz.Assume(subject != "")
+	var sess fosite.Session
+	switch kind {
+	case 0:
+		s := world.NewSession(subject)
+		s.Username = subject
+		sess = s
+	case 1:
+		sess = world.NewOIDCSession(subject)
+	case 2:
+		sess = world.NewJWTSession(subject)
+	}
+	code, err := wd.AuthorizeCodeSession("c1", []string{"offline", "photos"}, []string{apiAud}, sess)
+	zz.Assume(err == nil)
+	tok, err := wd.Redeem("c1", code)
+	zz.Assume(err == nil)
+	rounds := 1
+	if zz.Thorough() {
+		rounds = 2
+	}
+	for i := 0; i < rounds; i++ {
+		rt := world.RefreshTokenOf(tok)
+		zz.Assume(rt != "")
+		tok, err = wd.Refresh("c1", rt)
+		zz.Assert(err == nil, "refresh of a live token succeeds")
+		if err != nil {
+			return
+		}
+		for _, t := range []struct {
+			val string
+			use fosite.TokenUse
+		}{{tok.GetAccessToken(), fosite.AccessToken}, {world.RefreshTokenOf(tok), fosite.RefreshToken}} {
+			active, ar := wd.Introspect(t.val, t.use)
+			zz.Assert(active, "refreshed token is active")
+			if !active {
+				continue
+			}
+			zz.Assert(ar.GetSession().GetSubject() == subject, "refreshed token carries the subject of the grant")
+			zz.Assert(ar.GetSession().GetUsername() == subject, "refreshed token carries the username of the grant")
+			zz.Assert(ar.GetClient().GetID() == "c1", "refreshed token belongs to the client of the grant")
+			zz.Assert(world.EqList(ar.GetGrantedScopes(), []string{"offline", "photos"}), "refreshed token carries the granted scopes")
+			zz.Assert(world.EqList(ar.GetGrantedAudience(), []string{apiAud}), "refreshed token carries the granted audience")
+		}
+		zz.Cover("session-type-refreshed", true)
+	}
+}
